@@ -93,6 +93,11 @@ func (o execOpts) validate() error {
 		)
 	}
 
+	// The requested input must be there: it is read and updated during execution.
+	if o.tx != nil && o.tx.Inputs[o.inputIdx] == nil {
+		return errs.NewError(errs.ErrInvalidParams, "transaction input %d is nil", o.inputIdx)
+	}
+
 	outputHasLockingScript := o.previousTxOut != nil && o.previousTxOut.LockingScript != nil
 	txHasUnlockingScript := o.tx != nil && o.tx.Inputs != nil && len(o.tx.Inputs) > 0 &&
 		o.tx.Inputs[o.inputIdx] != nil && o.tx.Inputs[o.inputIdx].UnlockingScript != nil
